@@ -3,6 +3,7 @@ package h
 import (
 	"encoding/json"
 	"fmt"
+	"github.com/netflix/rend/verifshim/vsync"
 	"strings"
 
 	"verif/fakemc"
@@ -124,6 +125,13 @@ func isWrite(k string) bool {
 // RunFault executes one fault scenario. It returns the findings, a trace, and the number of
 // backend requests the faulted command sent per tier (used to enumerate fault positions).
 func RunFault(sc FaultScenario) (fs []Finding, trace string, n1, n2 int) {
+	vsync.TakeDoublePuts()
+	defer func() {
+		if f := doublePut("C10"); f != nil {
+			f.Sig += " op=" + opTag(sc.Cmd) + " l1=" + sc.Cfg.L1H
+			fs = append(fs, *f)
+		}
+	}()
 	w := NewWorld(sc.Cfg)
 	add := func(clause, what string) {
 		d := "none"
